@@ -11,6 +11,27 @@ use cosmwasm_std::{
 use std::marker::PhantomData;
 use std::panic::{catch_unwind, AssertUnwindSafe};
 
+#[derive(serde::Serialize, serde::Deserialize, Clone, Debug, PartialEq)]
+#[serde(rename_all = "snake_case")]
+pub enum LegStatus {
+    Sent,
+    AckSuccess,
+    AckFailure,
+    TimedOut,
+}
+#[derive(serde::Serialize, serde::Deserialize, Clone, Debug, PartialEq)]
+pub struct LegTransfer {
+    pub sequence: u64,
+    pub amount: u128,
+    pub status: LegStatus,
+}
+#[derive(serde::Serialize, serde::Deserialize, Clone, Debug, PartialEq)]
+pub struct LegWaiting {
+    pub amount: u128,
+}
+pub const LEG_INFLIGHT: cw_storage_plus::Map<u64, LegTransfer> = cw_storage_plus::Map::new("inflight");
+pub const LEG_WAITING: cw_storage_plus::Map<u64, LegWaiting> = cw_storage_plus::Map::new("ibc_waiting_for_reply");
+
 pub const CHAIN_PREFIX: &str = "osmo";
 
 /// Api of the protocol chain: addr_validate accepts exactly the lower-case Bech32 strings under
@@ -399,6 +420,9 @@ impl Sim {
         self.emit(format!("st.ver {} {}", hs(&ver.contract), hs(&ver.version)));
     }
 
+    // ---- the released 1.0.0 storage layout, pinned here (namespaces, field names, status spelling) rather than taken
+    // from the crate's own `migrations::states::v1_0_0`: a slip in those definitions must not hide itself from the
+    // migration check by being used on both sides
     fn p_lpkts(t: &str) -> Vec<(u64, u128, staking::state::ibc::PacketLifecycleStatus)> {
         use staking::state::ibc::PacketLifecycleStatus as P;
         p_list(t, |x| {
@@ -513,10 +537,17 @@ impl Sim {
             }
         }
         for (seq, amount, status) in Self::p_lpkts(pk) {
-            v1_0_0::INFLIGHT_PACKETS.save(&mut self.deps.storage, seq, &v1_0_0::IBCTransfer { sequence: seq, amount, status }).unwrap();
+            use staking::state::ibc::PacketLifecycleStatus as P;
+            let status = match status {
+                P::Sent => LegStatus::Sent,
+                P::AckSuccess => LegStatus::AckSuccess,
+                P::AckFailure => LegStatus::AckFailure,
+                P::TimedOut => LegStatus::TimedOut,
+            };
+            LEG_INFLIGHT.save(&mut self.deps.storage, seq, &LegTransfer { sequence: seq, amount, status }).unwrap();
         }
         for (id, amount) in Self::p_lwaits(wt) {
-            v1_0_0::IBC_WAITING_FOR_REPLY.save(&mut self.deps.storage, id, &v1_0_0::IbcWaitingForReply { amount }).unwrap();
+            LEG_WAITING.save(&mut self.deps.storage, id, &LegWaiting { amount }).unwrap();
         }
         // unrelated records that no migration may touch
         let st = staking::state::State {
@@ -572,20 +603,33 @@ impl Sim {
             }
         }
         if self.mlayout == 4 {
-            let pk: Vec<_> = staking::state::INFLIGHT_PACKETS.range(&self.deps.storage, None, None, Order::Ascending).map(|r| r.unwrap()).collect();
-            for (k, p) in pk {
-                self.emit(format!("mg.pkt {} {} {} {} {}", k, p.sequence, s_coin(&p.amount), hs(&p.receiver), s_pstatus(&p.status)));
+            // a record the new code cannot read (left behind in the old layout) is an observation, not a crash
+            let pk: Vec<_> = staking::state::INFLIGHT_PACKETS.range(&self.deps.storage, None, None, Order::Ascending).collect();
+            for r in pk {
+                match r {
+                    Ok((k, p)) => self.emit(format!("mg.pkt {} {} {} {} {}", k, p.sequence, s_coin(&p.amount), hs(&p.receiver), s_pstatus(&p.status))),
+                    Err(_) => self.emit("mg.pkt UNREADABLE".to_string()),
+                }
             }
-            let wq: Vec<_> = staking::state::IBC_WAITING_FOR_REPLY.range(&self.deps.storage, None, None, Order::Ascending).map(|r| r.unwrap()).collect();
-            for (k, w) in wq {
-                self.emit(format!("mg.wait {} {} {}", k, s_coin(&w.amount), hs(&w.receiver)));
+            let wq: Vec<_> = staking::state::IBC_WAITING_FOR_REPLY.range(&self.deps.storage, None, None, Order::Ascending).collect();
+            for r in wq {
+                match r {
+                    Ok((k, w)) => self.emit(format!("mg.wait {} {} {}", k, s_coin(&w.amount), hs(&w.receiver))),
+                    Err(_) => self.emit("mg.wait UNREADABLE".to_string()),
+                }
             }
         } else {
-            let pk: Vec<_> = v1_0_0::INFLIGHT_PACKETS.range(&self.deps.storage, None, None, Order::Ascending).map(|r| r.unwrap()).collect();
+            let pk: Vec<_> = LEG_INFLIGHT.range(&self.deps.storage, None, None, Order::Ascending).map(|r| r.unwrap()).collect();
             for (k, p) in pk {
-                self.emit(format!("mg.lpkt {} {} {} {}", k, p.sequence, p.amount, s_pstatus(&p.status)));
+                let st = match p.status {
+                    LegStatus::Sent => "sent",
+                    LegStatus::AckSuccess => "ack_success",
+                    LegStatus::AckFailure => "ack_failure",
+                    LegStatus::TimedOut => "timed_out",
+                };
+                self.emit(format!("mg.lpkt {} {} {} {}", k, p.sequence, p.amount, st));
             }
-            let wq: Vec<_> = v1_0_0::IBC_WAITING_FOR_REPLY.range(&self.deps.storage, None, None, Order::Ascending).map(|r| r.unwrap()).collect();
+            let wq: Vec<_> = LEG_WAITING.range(&self.deps.storage, None, None, Order::Ascending).map(|r| r.unwrap()).collect();
             for (k, w) in wq {
                 self.emit(format!("mg.lwait {} {}", k, w.amount));
             }
